@@ -42,6 +42,10 @@ CHECKS = {
     'C20': ("model_checking", "inspect(v), Debug and v_print(v) executed on the LLVM IR (-Zbuild-std: core::fmt, itertools sort, hashbrown for inspect's HashSet with concrete keys). Edge structure (six shapes incl. cycles, shared targets, "
             "an unreachable vertex) and data shapes are a task; labels and data bytes symbolic. Text tokenised under one model, every byte outside the payload proved fixed; inspect: terminates, multiset of printed edges = edges of the reachable "
             "vertices (symbolic label equalities); Debug: exactly the present vertices with edges and data; v_print: data marker iff data, exactly the labels.", "4 C20"),
+    'C13': ("model_checking", "slice(v) and slice_some(v, p) executed on the LLVM IR (-Zbuild-std: std's HashSet/hashbrown with concrete keys, emap's iterator, the real empty/add/bind). The edge structure of the source (targets per vertex) "
+            "is a task -- quick: ALL 343 structures of three vertices with up to two edges each plus 45 of four vertices; labels, data and the predicate are symbolic: the external symbol the closure forwards to answers with one solver variable per "
+            "source edge, the real code branches on it. Every path: Ok; present vertices of the result == closure of v under accepted edges (a fixpoint formula over the predicate variables); every accepted edge between kept vertices is there; "
+            "no edge the source lacks; Inv holds for the result; the source is byte-identical; the call returns on cyclic structures.", "4 C13"),
     'C19': ("model_checking", "Each configuration is shown to refine ONE functional step relation that mentions neither N nor the capacity (results, kids() order, next_id() = first absent id at or above the "
             "position, post-state up to the name of a new group's slot); two configurations that agree on the abstract state therefore agree on every answer. The executor reports ordering "
             "comparisons between pointers into different allocations (address-dependent behaviour); none occurs. merge/slice under arbitrary hash seeds are outside the claim.", "4 C19"),
@@ -82,7 +86,7 @@ for pid, (cat, text, ref) in CHECKS.items():
         "replay_cmd_template": "./check %s --replay {path}" % pid,
         "engine": "S",
         "level_claimed": {"category": cat, "text": text, "design_ref": "DESIGN.md section " + ref},
-        "level_note": T_NOTE if pid in ('C17', 'C08', 'C09', 'C18', 'C20') else S_NOTE,
+        "level_note": T_NOTE if pid in ('C17', 'C08', 'C09', 'C18', 'C20', 'C13', 'C11', 'C12', 'C14') else S_NOTE,
         "technique": S_TECH if pid != 'C17' else "symbolic execution of rustc's LLVM IR incl. core/alloc/std (-Zbuild-std, own executor) + z3: all texts of a shape / all label values within stated bounds",
     })
 
@@ -90,7 +94,6 @@ NA = {
     'C14': "script parsing is defined by four regex::Regex objects compiled at run time; the regex compiler/matcher cannot be encoded within reach (DESIGN.md section 6)",
     'C11': "merge() is recursive over HashMap<usize,usize> with RandomState (SipHash of symbolic keys) and anyhow errors; not encodable within reach on either engine (DESIGN.md section 6)",
     'C12': "same code as C11 (merge with HashMap and formatted anyhow errors); not encodable within reach (DESIGN.md section 6)",
-    'C13': "slice() uses HashSet/HashMap with RandomState over an emap-backed graph and a caller-supplied predicate; not encodable within reach (DESIGN.md section 6)",
 }
 na = []
 for p in props:
